@@ -188,7 +188,7 @@ def run(report, tier, seed):
               ("corpus:array", numpoly.polynomial([q0 ** 2 * q1, q1 ** 3 + q0]), numpoly.polynomial([q0 + q1, q1 - 2 * q0]))]
     cases = list(corpus)
     for _ in range(n):
-        kind = rng.choice(["general", "general", "exact", "constant", "univariate", "array_mixed", "numeric_left", "incomparable"])
+        kind = rng.choice(["general", "general", "exact", "constant", "univariate", "array_mixed", "numeric_left", "incomparable", "small_ratio"])
         names = tuple(sorted(rng.sample([0, 1, 2], rng.choice([1, 2, 2, 3]))))
         s1, s2 = gen.broadcast_pair(rng, 2)
         if kind == "univariate":
@@ -198,6 +198,24 @@ def run(report, tier, seed):
             if rng.random() < 0.5:
                 g = numpoly.polynomial(g)
             f = rand_poly(rng, s1, names, rng.randint(1, 4), 3)
+        elif kind == "small_ratio":
+            # quotient coefficients of magnitude 2**-40 .. 2**-80 (all operands dyadic: every float operation is exact):
+            # far above the documented 1e-30 cut-off of get_division_candidate, far below one unit of float64 round-off
+            # relative to the other coefficients - such terms must still be divided out
+            k = rng.randint(40, 80)
+            form = rng.randrange(3)
+            if form == 0:        # a huge constant divisor: the true quotient, remainder 0
+                kind = "constant"
+                g = rng.choice([2.0 ** k, numpoly.polynomial(2.0 ** k), numpy.full(s2, 2.0 ** k)])
+                f = rand_poly(rng, s1, names, rng.randint(1, 4), 3)
+            elif form == 1:      # an exact multiple with a tiny cofactor
+                kind = "exact"
+                g = rand_poly(rng, s2, names, rng.randint(1, 3), 2, divisor=True)
+                f = (rand_poly(rng, s1, names, rng.randint(1, 3), 2) * 2.0 ** -k) * g
+            else:                # a general division of a dividend that is tiny throughout (one common scale: exact)
+                kind = "general"
+                g = rand_poly(rng, s2, names, rng.randint(1, 3), 2, divisor=True)
+                f = rand_poly(rng, s1, names, rng.randint(1, 4), 3) * 2.0 ** -k
         elif kind == "exact":
             g = rand_poly(rng, s2, names, rng.randint(1, 3), 2, divisor=True)
             h = rand_poly(rng, s1, names, rng.randint(1, 3), 2)
@@ -280,7 +298,11 @@ def run(report, tier, seed):
             viol.append(("divmod:exact-multiple", f"{desc}: the dividend is a multiple of the divisor but the remainder is {obs['r']}", rep))
             continue
         # ---- the Coq model on the same element lists --------------------------------------------
-        if len(obs["f"]) <= 6 and it <= 40:
+        # (the model's rationals are MathComp's, over unary naturals: coefficients beyond a few thousand in numerator or
+        #  denominator - the small_ratio stream - are judged by the exact arithmetic above only)
+        small = all(abs(v.numerator) < 5000 and v.denominator < 5000
+                    for part in ("f", "g", "q", "r") for e in obs[part] for v in e.values())
+        if len(obs["f"]) <= 6 and it <= 40 and small:
             exp = core.cseq(f"({coq_spoly(qe)}, {coq_spoly(re_)})" for qe, re_ in zip(obs["q"], obs["r"]))
             cc.add(f"chkdiv {it + 2} {core.cseq(coq_spoly(e) for e in obs['f'])} {core.cseq(coq_spoly(e) for e in obs['g'])} {exp}",
                    {"kind": kind, **rep, "iterations": it})
